@@ -12,6 +12,12 @@ def make_job(rng, idx, quick):
     cfg, env = cr.gen_config(rng, allow_nonlinear=False, max_up=64, max_down=200, datatypes=rng.chance(.5), channels=rng.chance(.5))
     total = rng.choice([0, 5, 300, 5000, 40000]) if rng.chance(.6) else rng.below(30000)
     total = min(total, int(100000 * max(1.0, cr.io_ratio(cfg))), int(100000 * cr.io_ratio(cfg)) + 3)
+    if rng.chance(.04):
+        # soxr_runtime_spec(0): the channels of one call are processed by OpenMP threads - the pull loop then drives another body of
+        # soxr_output_no_callback.  A few such jobs only, with a small team that sleeps while idle (DESIGN section 13: a spinning full-size
+        # team in every job starves the machine).  Round 7, `C18-flush-hoisted-omp-path-missed`.
+        cfg = dict(cfg); cfg["ch"] = 2 + rng.below(3); cfg["threads"] = 0
+        env = dict(env, OMP_NUM_THREADS="4", OMP_WAIT_POLICY="PASSIVE")
     return {"cfg": cfg, "env": env, "N": total, "seed": rng.next() & 0xffffffff, "idx": idx,
             "style": rng.choice(["eof", "eof", "fail", "fail", "limit"]),
             "clear_first": rng.chance(.15)}
@@ -33,6 +39,10 @@ def job_ops(job, plan):
         toks.append("d%d" % n)
         supplied += min(n, lim)      # an upper bound; the harness clamps to the request
     end = {"eof": "e", "fail": "f", "limit": "e"}[job["style"]]
+    if end == "f" and rng.chance(.4):
+        # failure reported with a non-zero count (NULL data after a partial read): the NULL pointer is the signal, whatever the count
+        # (round 7 of the seeded changes, `C18-failure-with-nonzero-count-not-recognised`)
+        end = "F%d" % rng.choice([1, 1, 7, 100, 10 ** 6])
     toks.append(end)
     toks += ["d100"] * 3          # what a call after the end / failure would be given
     ops = [cr.create_line(job["cfg"])]
